@@ -582,6 +582,10 @@ def run_check(pid: str, tier: str, seed: int, replay: str | None = None) -> int:
 
     for ln in lines:
         print(ln)
+    if cerr:
+        print(f"CORRESPONDENCE-ERROR {pid}: the model could not be evaluated on the cases: {cerr[:600]}")
+    if po["failed"]:
+        print(f"PROOF-ERROR {pid}: {po['failed']} {po['log'][-600:]}")
     print(f"{pid} {tier}: theorems {po['discharged']}/{po['obligations']}, cases {len(cases)} "
           f"(corr {len(terms)}, mismatches {len(mism)}), oracle failures {len(failures)}, "
           f"known {len(known_hit)}, violations {violations}, {ev['wall_s']}s")
